@@ -43,7 +43,7 @@ VARIABLES pre,      \* pre[n]: alh of the txs node n holds (in memory) under ids
           syncOn,   \* synchronous replication enabled on n
           need,     \* acks a primary with synchronous replication requires
           everDur,  \* history variable: alh values n has durably held at some time
-          created,  \* history variable: [id, alh, prev] of the txs primaries created
+          created,  \* history variable: [id, alh, prev] of the txs primaries created, and [by, id, alh]: who created them
           rep,      \* rep[r]: the state replica r read last (what its next request carries)
           acked,    \* acked[p][r]: highest id of a state of r that reached p and was a prefix of p's history
           allowBy,  \* allowBy[r]: the node whose allowance is in force on replica r (None: none)
@@ -57,6 +57,7 @@ AlhAt(s, k) == IF k = 0 THEN 0 ELSE s[k]
 St(cid, calh, pid, palh) == [cid |-> cid, calh |-> calh, pid |-> pid, palh |-> palh]
 NoSt == St(0, 0, 0, 0)
 TxRec(id, alh, prev) == [id |-> id, alh |-> alh, prev |-> prev]
+Own(n, id, alh) == [by |-> n, id |-> id, alh |-> alh]
 
 \* cf: node -> [role, follows, sync, need]
 Init(cf) ==
@@ -89,7 +90,7 @@ PrecommitS(n, id, alh, prev) == id = Len(pre[n]) + 1 /\ prev = AlhAt(pre[n], id 
 PrecommitG(n, id, alh, prev) == role[n] = "replica" => TxRec(id, alh, prev) \in created
 PrecommitE(n, id, alh, prev) ==
   /\ pre' = [pre EXCEPT ![n] = Append(@, alh)]
-  /\ created' = IF role[n] = "primary" THEN created \cup {TxRec(id, alh, prev)} ELSE created
+  /\ created' = IF role[n] = "primary" THEN created \cup {TxRec(id, alh, prev), Own(n, id, alh)} ELSE created
   /\ UNCHANGED <<dur, com, role, follows, syncOn, need, everDur, rep, acked, allowBy, srcs>>
 Precommit(n, id, alh, prev) == PrecommitS(n, id, alh, prev) /\ PrecommitG(n, id, alh, prev) /\ PrecommitE(n, id, alh, prev)
 
@@ -104,7 +105,10 @@ CommittedS(n, upto, alh) == upto > com[n] /\ upto <= Len(pre[n]) /\ pre[n][upto]
 \* with synchronous replication a primary commits a tx only after the required number of replicas durably hold it
 \* (and told so); a replica commits only what the primary that authorised the commit has committed, as a prefix of it
 PCommittedG(p, upto) == (syncOn[p] /\ need[p] > 0) => \A id \in (com[p] + 1)..upto : Cardinality(DurableAckers(p, id)) >= need[p]
-RCommittedG(r, upto) == \E p \in Auth(r) : PrefixOfCommitted(r, upto, p)
+\* (asynchronous replication: a store commits what it holds as soon as it is durable; a former primary may so commit
+\* transactions it created itself before it was demoted)
+RCommittedG(r, upto) == IF syncOn[r] THEN \E p \in Auth(r) : PrefixOfCommitted(r, upto, p)
+                        ELSE \A k \in (com[r] + 1)..upto : Own(r, k, pre[r][k]) \in created \/ \E p \in Auth(r) : PrefixOfCommitted(r, k, p)
 CommittedG(n, upto, alh) == IF role[n] = "primary" THEN PCommittedG(n, upto) ELSE RCommittedG(n, upto)
 CommittedE(n, upto, alh) ==
   /\ com' = [com EXCEPT ![n] = upto]
